@@ -1,6 +1,7 @@
 package main
 
 import (
+	"go/token"
 	"go/types"
 	"strings"
 
@@ -630,6 +631,150 @@ func checkC11(c *Ctx, r *Report) {
 			fl, _ := loadOfField(strip2(id.Common().Args[0]))
 			r8.Check(fl != nil && fl.Name() == "PublicKey", "client Reserve: signer = IDFromPublicKey(envelope.PublicKey)", instrPos(id.(ssa.Instruction)), 1, "", "", "")
 		}
+	}
+
+	// ---- R9 ---------------------------------------------------------------
+	r9 := r.Rule("C11-R9", "E8/E1", 10, "circuit bookkeeping: addConn stores the peer's count plus one and tags the peer with its first circuit; rmConn stores the count minus one, or with the last circuit forgets the peer and removes the tag; a reservation that is granted tags the peer and the collection of an expired or closed one untags it; the limited copy stops the source once the byte budget is used")
+	rm := func(n string) string { return "(*" + relT + ")." + n }
+	connsK := relT + ".conns"
+	for _, q := range []struct {
+		fn string
+		op token.Token
+	}{{"addConn", token.ADD}, {"rmConn", token.SUB}} {
+		f := r9.need(rm(q.fn))
+		if f == nil {
+			continue
+		}
+		pp := f.Params[1]
+		isPeer := func(v ssa.Value) bool {
+			v = resolveLoad(strip2(v))
+			return v == ssa.Value(pp) || isParamCellLoad(c, v, pp)
+		}
+		isStep := func(v ssa.Value) bool {
+			bo, ok := v.(*ssa.BinOp)
+			if !ok {
+				return false
+			}
+			k, isC := constInt(bo.Y)
+			if !isC || !((bo.Op == q.op && k == 1) || (bo.Op != q.op && (bo.Op == token.ADD || bo.Op == token.SUB) && k == -1)) {
+				return false
+			}
+			lk, isL := resolveLoad(strip2(bo.X)).(*ssa.Lookup)
+			return isL && isLoadOfField(connsK)(strip2(lk.X)) && isPeer(lk.Index)
+		}
+		stores := findInstrs(f, func(in ssa.Instruction) bool {
+			mu, ok := in.(*ssa.MapUpdate)
+			return ok && isLoadOfField(connsK)(strip2(mu.Map)) && isPeer(mu.Key) && derivesFrom(mu.Value, isStep)
+		})
+		isCount := func(v ssa.Value) bool {
+			if derivesFrom(v, isStep) {
+				return true
+			}
+			// conns[p] read again after the new count was stored
+			lk, isL := resolveLoad(strip2(v)).(*ssa.Lookup)
+			if !isL || !isLoadOfField(connsK)(strip2(lk.X)) || !isPeer(lk.Index) {
+				return false
+			}
+			for _, st := range stores {
+				if st.Block() == lk.Block() && instrIndex(st) < instrIndex(lk) || (st.Block() != lk.Block() && st.Block().Dominates(lk.Block())) {
+					return true
+				}
+			}
+			return false
+		}
+		one := func(v ssa.Value) bool { k, ok := constInt(v); return ok && k == 1 }
+		zero := func(v ssa.Value) bool { k, ok := constInt(v); return ok && k == 0 }
+		if q.fn == "addConn" {
+			r9.mustPass(f, rm(q.fn)+": conns[p] = conns[p] + 1", &Cut{Fn: f, Target: isRetInstr, Sep: inSet(stores)}, len(stores))
+			tags := findInstrs(f, func(in ssa.Instruction) bool {
+				return calleeNameIs(in, "TagPeer") && isPeer(callArgs(in.(ssa.CallInstruction))[1])
+			})
+			first := anyEdge(eqEdge(isCount, one, true), edgeExcl(isCount, one, ordGT, ordLT))
+			r9.guard(f, "tag the peer", tags, "this is its first circuit", first, nil)
+			var from []CFGEdge
+			for _, b := range blocksDeep(f) {
+				for si := range b.Succs {
+					if first(b, si) {
+						from = append(from, CFGEdge{b, si})
+					}
+				}
+			}
+			r9.mustPass(f, rm(q.fn)+": the first circuit tags the peer", &Cut{Fn: f, FromEdges: from, Target: isRetInstr, Sep: inSet(tags)}, len(from))
+			r9.Check(len(from) >= 1 && len(tags) >= 1, rm(q.fn)+": first-circuit test and tag", f.Pos(), len(from), "", "", "")
+			continue
+		}
+		// rmConn: some circuits left -> store; none -> delete + untag
+		left := edgeExcl(isCount, zero, ordEQ, ordLT)
+		none := edgeExcl(isCount, zero, ordGT)
+		dels := findInstrs(f, func(in ssa.Instruction) bool {
+			if !isCallTo(in, "builtin.delete") {
+				return false
+			}
+			a := callArgs(in.(ssa.CallInstruction))
+			return len(a) == 2 && isLoadOfField(connsK)(strip2(a[0])) && isPeer(a[1])
+		})
+		untags := findInstrs(f, func(in ssa.Instruction) bool {
+			return calleeNameIs(in, "UntagPeer") && isPeer(callArgs(in.(ssa.CallInstruction))[1])
+		})
+		var fromLeft, fromNone []CFGEdge
+		for _, b := range blocksDeep(f) {
+			for si := range b.Succs {
+				if left(b, si) {
+					fromLeft = append(fromLeft, CFGEdge{b, si})
+				}
+				if none(b, si) {
+					fromNone = append(fromNone, CFGEdge{b, si})
+				}
+			}
+		}
+		r9.Check(len(fromLeft) >= 1 && len(fromNone) >= 1, rm(q.fn)+": tests whether circuits are left", f.Pos(), len(fromLeft)+len(fromNone), "", "", "")
+		r9.mustPass(f, rm(q.fn)+": with circuits left, conns[p] = conns[p] - 1", &Cut{Fn: f, FromEdges: fromLeft, Target: isRetInstr, Sep: inSet(stores)}, len(stores))
+		r9.mustPass(f, rm(q.fn)+": with none left, the peer is forgotten", &Cut{Fn: f, FromEdges: fromNone, Target: isRetInstr, Sep: inSet(dels)}, len(dels))
+		r9.mustPass(f, rm(q.fn)+": with none left, the tag is removed", &Cut{Fn: f, FromEdges: fromNone, Target: isRetInstr, Sep: inSet(untags)}, len(untags))
+		r9.guard(f, "remove the tag", untags, "no circuit is left", none, nil)
+	}
+	if f := r9.need(hr); f != nil {
+		// granted (rsvp[p] written) => tagged
+		grants := findInstrs(f, fieldWritePred(relT+".rsvp"))
+		tags := findInstrs(f, func(in ssa.Instruction) bool { return calleeNameIs(in, "TagPeer") })
+		r9.mustPass(f, "handleReserve: a granted reservation tags the peer", &Cut{Fn: f, From: grants, Target: isRetInstr, Sep: inSet(tags)}, len(grants))
+		r9.Check(len(grants) >= 1 && len(tags) >= 1, "handleReserve: grant and tag sites", f.Pos(), len(grants), "", "", "")
+	}
+	if f := r9.need(rm("gc")); f != nil {
+		dels := findInstrs(f, func(in ssa.Instruction) bool {
+			return isCallTo(in, "builtin.delete") && isLoadOfField(relT+".rsvp")(strip2(callArgs(in.(ssa.CallInstruction))[0]))
+		})
+		untags := findInstrs(f, func(in ssa.Instruction) bool { return calleeNameIs(in, "UntagPeer") })
+		okG := len(dels) >= 1 && len(untags) >= 1
+		w := ""
+		n := 0
+		if okG {
+			h := iterationOf(dels[0].Parent(), dels[0].Block())
+			w, n = (&Cut{Fn: f, From: dels, Sep: inSet(untags), Target: func(in ssa.Instruction) bool {
+				return isRetInstr(in) || (h != nil && in.Block() == h && instrIndex(in) == 0)
+			}}).Run(c)
+		}
+		r9.Check(okG && w == "", "gc: a collected reservation loses its connection-manager tag", f.Pos(), n+1, "", "the tag outlives the reservation: the peer stays protected from trimming", w)
+	}
+	if f := r9.need(rm("relayLimited")); f != nil {
+		limitP := f.Params[len(f.Params)-2]
+		isLimit := func(v ssa.Value) bool {
+			v = resolveLoad(strip2(v))
+			return v == ssa.Value(limitP) || isParamCellLoad(c, v, limitP)
+		}
+		isCopied := func(v ssa.Value) bool { return isResultOfCall(resolveLoad(strip2(v)), 0, rm("copyWithBuffer")) != nil }
+		used := eqEdge(isCopied, isLimit, true)
+		stops := findInstrs(f, func(in ssa.Instruction) bool { return calleeNameIs(in, "CloseRead", "Reset") })
+		var from []CFGEdge
+		for _, b := range blocksDeep(f) {
+			for si := range b.Succs {
+				if used(b, si) {
+					from = append(from, CFGEdge{b, si})
+				}
+			}
+		}
+		r9.Check(len(from) >= 1, "relayLimited: compares the bytes copied with the budget", f.Pos(), len(from), "", "the source keeps being read after the budget is used", "")
+		r9.mustPass(f, "relayLimited: once the budget is used the source is stopped", &Cut{Fn: f, FromEdges: from, Target: isRetInstr, Sep: inSet(stops)}, len(from))
 	}
 }
 
